@@ -5,4 +5,5 @@ from ..rules import rxr
 def check(ctx, rep):
     rxr.rx_3_4(ctx, rep)
     rxr.rx_5_6(ctx, rep)
+    rxr.rx_5c(ctx, rep)
     rep.note('Not decided: codec behaviour.')
